@@ -15,6 +15,8 @@ mod c02;
 mod c05;
 mod c06;
 mod c07;
+mod c08;
+mod c16;
 mod c17;
 mod c18;
 mod c19;
@@ -91,10 +93,14 @@ fn search(twin: &str, case: Option<&str>, seed: u64) -> Option<Value> {
         c18::search(twin, case, seed)
     } else if twin.starts_with("c19.") {
         c19::search(twin, case, seed)
+    } else if twin.starts_with("c08.") {
+        c08::search(twin, case, seed)
     } else if twin.starts_with("c24.") {
         c24::search(twin, case, seed)
     } else if twin.starts_with("c25.") {
         c25::search(twin, case, seed)
+    } else if twin.starts_with("c16.") {
+        c16::search(twin, case, seed)
     } else if twin.starts_with("c17.") {
         c17::search(twin, case, seed)
     } else {
@@ -117,10 +123,14 @@ fn replay(twin: &str, input: &Value) -> Value {
         c18::replay(twin, input)
     } else if twin.starts_with("c19.") {
         c19::replay(twin, input)
+    } else if twin.starts_with("c08.") {
+        c08::replay(twin, input)
     } else if twin.starts_with("c24.") {
         c24::replay(twin, input)
     } else if twin.starts_with("c25.") {
         c25::replay(twin, input)
+    } else if twin.starts_with("c16.") {
+        c16::replay(twin, input)
     } else if twin.starts_with("c17.") {
         c17::replay(twin, input)
     } else {
@@ -143,10 +153,14 @@ fn sweep(twin: &str, seed: u64) -> Value {
         c18::sweep(twin, seed)
     } else if twin.starts_with("c19.") {
         c19::sweep(twin, seed)
+    } else if twin.starts_with("c08.") {
+        c08::sweep(twin, seed)
     } else if twin.starts_with("c24.") {
         c24::sweep(twin, seed)
     } else if twin.starts_with("c25.") {
         c25::sweep(twin, seed)
+    } else if twin.starts_with("c16.") {
+        c16::sweep(twin, seed)
     } else if twin.starts_with("c17.") {
         c17::sweep(twin, seed)
     } else {
